@@ -19,6 +19,16 @@ ap.add_argument("--jobs", type=int, default=3)
 ap.add_argument("--repo", default=os.environ.get("VP_RUN_REPO", "/repo"))
 args = ap.parse_args()
 V = os.path.dirname(os.path.dirname(os.path.abspath(__file__)))
+# one snapshot of the repository and of /verif for the whole run, so that both can be edited meanwhile
+SNAP = tempfile.mkdtemp(prefix='vst-snap-')
+
+
+subprocess.run(['rsync', '-a', '--exclude', '.git', args.repo + '/', SNAP + '/repo/'], check=True)
+subprocess.run(['rsync', '-a', '--exclude', '.git', '--exclude', 'out', '--exclude', 'replays', '--exclude', 'seeded', '--exclude', '.cache', V + '/', SNAP + '/verif/'], check=True)
+args.repo = SNAP + '/repo'
+RUNV = SNAP + '/verif'
+os.makedirs(V + '/.cache', exist_ok=True)
+os.symlink(V + '/.cache', RUNV + '/.cache')  # proofs are keyed by the query text: sharing the cache is safe and saves most of the time
 
 
 def scratch(patch):
@@ -32,8 +42,8 @@ def scratch(patch):
 
 
 def run_check(prop, repo):
-    r = subprocess.run([V + "/bin/vcheck", "check", "--property", prop, "--tier", "quick", "--repo", repo, "--no-evidence", "--discard-queries"],
-                       capture_output=True, text=True, cwd=V)
+    r = subprocess.run([RUNV + "/bin/vcheck", "check", "--property", prop, "--tier", "quick", "--repo", repo, "--no-evidence", "--discard-queries", "--verif", RUNV],
+                       capture_output=True, text=True, cwd=RUNV)
     return r.returncode, r.stdout + r.stderr
 
 
@@ -105,5 +115,6 @@ with concurrent.futures.ThreadPoolExecutor(max_workers=args.jobs) as ex:
         print("%-8s %-32s %s" % ("ok" if ok else "BROKEN", name, why))
         if not ok:
             bad += 1
+shutil.rmtree(SNAP, ignore_errors=True)
 print("selftest: %d cases, %d broken" % (len(jobs), bad))
 sys.exit(1 if bad else 0)
